@@ -140,13 +140,13 @@ var _ = shared.NewCounter
 //@   decreases measure(i)
 //@   rank 3
 //@   ensures [no-log C06] i.g_logRuns == old(i.g_logRuns)
+//@   callassert [documented-actions-are-not-rejected C06] Runtime: arg0 != nil ==> !(state == HASH || state == NONE)
 //@   callassert [hash-reseeded-on-every-entry C06] ProcessSubroutine: i.ctx.RequestHash != nil && fresh(i.ctx.RequestHash)
 
 //@ func (*Interpreter).restart [C06 C08]
 //@   requires okI(i)
 //@   decreases measure(i)
 //@   rank 1
-//@   callassert [documented-actions-are-not-rejected C06] Runtime: arg0 != nil ==> !(state == HASH || state == NONE)
 //@   ensures [log-once C06] logOnce(i, err)
 //@   ensures [bounded C06] err == nil ==> old(i.ctx.Restarts) < limitations.MaxVarnishRestarts
 //@   callassert [restart-bound C06] ProcessRecv: i.ctx.Restarts <= limitations.MaxVarnishRestarts && i.ctx.Restarts == old(i.ctx.Restarts) + 1
